@@ -7,9 +7,10 @@ bind  : spec -> code  every TLC state (a bag of abstract alignments over 2 targe
                       find_snvs.write_vcf_block runs with every read-filter configuration (the depth array is
                       observed at its bam_region_depths call, the records are parsed from stdout by an independent
                       reader) and find_snvs.main(argv) for one configuration per state
-        code -> spec  the repository's BAM sets of the find-snvs goldens and seeded random BAMs are abstracted by the
-                      SAM-text walker and validated, with the depths and records the program produced, by
-                      TraceFindSnvs.tla
+        code -> spec  the repository's BAM sets of the find-snvs goldens, seeded random BAMs and seeded random deep
+                      tables (30-60 reads per sample, near-tied ALT counts, thresholds on observed values, --min-ind
+                      0 / 1 / n / n+1) are abstracted by the SAM-text walker and validated, with the depths and records
+                      the program produced, by TraceFindSnvs.tla
 """
 import json
 import os
@@ -60,28 +61,57 @@ def main():
         "<= 4-5 reads), keeps the depth table of every read-filter configuration in the state and evaluates the "
         "documented threshold rule for every threshold configuration. Every state is concretised into one BAM per sample "
         "and run through write_vcf_block for every read-filter configuration and every threshold class. "
+        "The 'boundary' instance runs --min-ind 0 (population thresholds only) and n_samples+1 against every zero / non-zero "
+        "combination of the other thresholds on tables of <= 6 reads; the 'deep' instances start the same counter machine from "
+        "a seed table of 30-60 reads per sample (BulkPile, tied to the single-read step by SeedIsPile) in which two ALT "
+        "alleles have near-tied, unequal exact mean frequencies, with thresholds at 0 and exactly on observed values. "
         "Non-trivial = state with >= 2 alignments."
     )
     instances = [("MC_%s.cfg" % tier, "FindSnvs-filter", False), ("MC_%s_thresh.cfg" % tier, "FindSnvs-thresholds", True),
-                 ("MC_minind.cfg", "FindSnvs-thresholds-min-ind", True)]
+                 ("MC_minind.cfg", "FindSnvs-thresholds-min-ind", True),
+                 # option boundary values: --min-ind 0 / n+1 with every 0 / non-0 combination of the other four thresholds
+                 ("MC_boundary.cfg", "FindSnvs-thresholds-boundary", True)]
+    # deep tables (30-60 reads per sample) started from a seed: near-tied unequal ALT means, thresholds on observed values
+    if quick:
+        instances += [("MC_deep_near.cfg", "FindSnvs-deep-near-ties", True), ("MC_deep_dyadic.cfg", "FindSnvs-deep-dyadic", True)]
+    else:
+        instances += [("MC_thorough_deep_near.cfg", "FindSnvs-deep-near-ties", True),
+                      ("MC_thorough_deep_dyadic.cfg", "FindSnvs-deep-dyadic", True),
+                      ("MC_thorough_deep_three.cfg", "FindSnvs-deep-3samples", True)]
     if not quick:
         instances.append(("MC_thorough_deep.cfg", "FindSnvs-filter-deep", False))
         instances.append(("MC_thorough_thresh3.cfg", "FindSnvs-thresholds-3samples", True))
     runs = []
+    mutants = ("MutMapqNoEffect", "MutDupNoEffect", "MutQcNoEffect", "MutSuppNoEffect", "MutMafPerSample", "MutMinIndAtLeastOne",
+               "MutOrderRounded")
+    import concurrent.futures as cf
+
+    # the model-checking runs are independent: a few JVMs side by side, sharing the cores
+    par = 3 if env.NCPU >= 6 else 1
+    tlc_workers = max(2, env.NCPU // par)
+
+    def mc(job):
+        kind, name = job
+        if kind == "inst":
+            return tlc.run(SPEC, "FindSnvs", name, timeout=2400, workers=tlc_workers)
+        return tlc.run(SPEC, "FindSnvs", "Mutant_%s.cfg" % name, workers=2)
+
     try:
-        for cfg, label, all_th in instances:
-            r = tlc.run(SPEC, "FindSnvs", cfg, timeout=2400)
+        with cf.ThreadPoolExecutor(max_workers=par) as ex:
+            mc_res = list(ex.map(mc, [("inst", c) for c, _, _ in instances] + [("mutant", m) for m in mutants]))
+        for (cfg, label, all_th), r in zip(instances, mc_res):
             ck.add_tlc(r, label)
             if r.violated:
                 ck.violation("model", {"cfg": cfg, "invariant": r.violated, "text": r.error_text[:1500]}, key={"model": "FindSnvs", "cfg": cfg})
             th = [p for p in r.printed if "thresholds" in p]
-            st = [p for p in r.printed if "hist" in p and p["hist"]]
             if len(th) < 1:
                 ck.machinery_failure("no threshold table printed by %s" % cfg)
-            runs.append((label, th[0]["thresholds"], st, all_th))
+            bulk = th[0].get("seed") or []
+            # (the state without alignments is replayed only where a seed gives it a table)
+            st = [p for p in r.printed if "hist" in p and (p["hist"] or bulk)]
+            runs.append((label, th[0]["thresholds"], st, all_th, bulk))
         killed = 0
-        for inv in ("MutMapqNoEffect", "MutDupNoEffect", "MutQcNoEffect", "MutSuppNoEffect", "MutMafPerSample"):
-            m = tlc.run(SPEC, "FindSnvs", "Mutant_%s.cfg" % inv)
+        for inv, m in zip(mutants, mc_res[len(instances):]):
             if m.violated != inv:
                 ck.machinery_failure("mutant spec %s not killed (%s)" % (inv, m.violated))
             killed += 1
@@ -92,13 +122,12 @@ def main():
     # ---- spec -> code ----------------------------------------------------------
     tasks = []
     n_states = 0
-    for label, thtab, st, all_th in runs:
+    for label, thtab, st, all_th, bulk in runs:
         ths = [{"imaf": t[0], "imad": t[1], "mind": t[2], "maf": t[3], "mad": t[4]} for t in thtab]
-        nS = max(a["s"] for s in st for a in s["hist"])
-        nS = max(nS, len(st[0]["cls"][0]["depth"]))
+        nS = len(st[0]["cls"][0]["depth"])
         chunk = 40 if not all_th else 12
         for i in range(0, len(st), chunk):
-            tasks.append({"op": "replay", "states": st[i:i + chunk], "thresholds": ths, "samples": nS, "seed": ck.seed,
+            tasks.append({"op": "replay", "states": st[i:i + chunk], "thresholds": ths, "samples": nS, "seed": ck.seed, "bulk": bulk,
                           "chunk": "%s-%d" % (label, i // chunk), "wd": data_wd, "all_th": all_th, "cli": True})
         n_states += len(st)
     res = pool.map_tasks("impl.c19", tasks, mode="jit")
@@ -129,6 +158,8 @@ def main():
                "cfgs": 4 if quick else 16} for i, bs in enumerate(BAM_SETS)]
     for i in range(4 if quick else 32):
         rtasks.append({"op": "record_random", "wd": data_wd, "chunk": i, "seed": ck.seed, "tid0": 100000 + 1000 * i, "n": 6, "cfgs": 4})
+    for i in range(3 if quick else 12):
+        rtasks.append({"op": "record_deep", "wd": data_wd, "chunk": i, "seed": ck.seed, "tid0": 200000 + 1000 * i, "n": 2, "cfgs": 4})
     rres = pool.map_tasks("impl.c19", rtasks, mode="jit")
     traces = []
     for t, rr in zip(rtasks, rres):
@@ -149,8 +180,6 @@ def main():
         with open(tf, "w") as fh:
             json.dump(ev, fh)
         jobs.append((tf, ev))
-
-    import concurrent.futures as cf
 
     def run_trace(job):
         tf, ev = job
@@ -235,7 +264,8 @@ def main():
         "generated reads are unpaired with base qualities >= 30 and never secondary, so pysam's base-quality / orphan / overlap / "
         "secondary defaults (not part of the property) cannot matter",
         "positions where a sample has no reads are only judged where the documented rule is unambiguous (--maf 0 and a non-vacuous "
-        "individual threshold); population-frequency boundaries with non-dyadic sample frequencies are skipped",
+        "individual threshold); population-frequency boundaries with non-dyadic sample frequencies are skipped; a position "
+        "without any read is not judged when every threshold is vacuous (--min-ind 0 --maf 0 --mad 0)",
         "exhaustive within the listed alphabets, stream lengths and threshold grids",
     ]
     ck.finish()
